@@ -249,3 +249,89 @@ func init() {
 	stubs["sort.Slice"] = sortSlice
 	stubs["sort.SliceStable"] = sortSlice
 }
+
+// fmt.Scanln / fmt.Scan on standard input (round 10): the documented token
+// rules on the harness's stdin bytes (which may be symbolic: every byte's class
+// - newline, blank, other - is decided by forking). Only *string operands.
+// Scanln: operands are separated by blanks; a newline (or EOF) must follow the
+// last operand, otherwise "expected newline"; a newline before an operand is
+// "unexpected newline"; EOF before the first operand is io.EOF. Scan treats
+// newlines as blanks. Bytes are consumed exactly as far as fmt reads them
+// (through the newline, or one byte past the last token).
+func init() {
+	scan := func(nlIsSpace bool) func(fr *frame, args []value) value {
+		return func(fr *frame, args []value) value {
+			i := fr.i
+			if !i.stdinSet {
+				panic(unsupported("fmt.Scan* without vStdin"))
+			}
+			ops := args[len(args)-1].([]value)
+			is := func(b value, c byte) bool { return i.decide(i.cx.Eq(i.term(b), i.cx.BV(uint64(c), 8))) }
+			class := func(b value) int { // 0 other, 1 blank, 2 newline
+				if is(b, '\n') {
+					if nlIsSpace {
+						return 1
+					}
+					return 2
+				}
+				if is(b, ' ') || is(b, '\t') || is(b, '\r') {
+					return 1
+				}
+				return 0
+			}
+			eof := *i.globals[i.sh.Pkgs["io"].Var("EOF")]
+			done := 0
+			for _, op := range ops {
+				p, ok := op.(iface).v.(*value)
+				if !ok {
+					panic(unsupported("fmt.Scan*: operand is not a pointer"))
+				}
+				if _, isStr := mustDeref(op.(iface).t).Underlying().(*types.Basic); !isStr {
+					panic(unsupported("fmt.Scan*: only *string operands are modelled"))
+				}
+				// skip blanks
+				for len(i.stdin) > 0 {
+					c := class(i.stdin[0])
+					if c == 1 {
+						i.stdin = i.stdin[1:]
+						continue
+					}
+					break
+				}
+				if len(i.stdin) == 0 {
+					if done == 0 {
+						return tuple{done, eof}
+					}
+					return tuple{done, i.errorValue("unexpected EOF")}
+				}
+				if class(i.stdin[0]) == 2 {
+					i.stdin = i.stdin[1:]
+					return tuple{done, i.errorValue("unexpected newline")}
+				}
+				var tok []value
+				for len(i.stdin) > 0 && class(i.stdin[0]) == 0 {
+					tok = append(tok, i.stdin[0])
+					i.stdin = i.stdin[1:]
+				}
+				*p = normStr(tok)
+				done++
+			}
+			if !nlIsSpace {
+				// a newline or EOF must follow
+				for len(i.stdin) > 0 {
+					c := class(i.stdin[0])
+					i.stdin = i.stdin[1:]
+					if c == 2 {
+						return tuple{done, iface{}}
+					}
+					if c == 0 {
+						return tuple{done, i.errorValue("expected newline")}
+					}
+				}
+			}
+			return tuple{done, iface{}}
+		}
+	}
+	stubs["fmt.Scanln"] = scan(false)
+	stubs["fmt.Scan"] = scan(true)
+}
